@@ -126,6 +126,57 @@ func gatePhase() []string {
 	return bad
 }
 
+// here: file:line of the statement that calls it - what the default CallerMarshalFunc prints for an event logged by that statement.
+func here() string {
+	_, f, ln, _ := runtime.Caller(1)
+	return fmt.Sprintf("%s:%d", f, ln)
+}
+
+// callerPhase: goroutines log with caller reporting on, from two source lines in turn (each through an event-level Caller() and
+// through a logger With().Caller()): every event carries the line it was logged from, whoever else is logging from wherever.
+func callerPhase() []string {
+	bad := []string{}
+	s := &sink{}
+	base := zerolog.New(s)
+	ctxl := base.With().Caller().Logger()
+	G, K := 8, 1500
+	var wg sync.WaitGroup
+	for g := 0; g < G; g++ {
+		wg.Add(1)
+		go func(g int) {
+			defer wg.Done()
+			for k := 0; k < K; k++ {
+				if (g+k)%2 == 0 {
+					base.Info().Caller().Str("want", here()).Int("g", g).Msg("a")
+					ctxl.Info().Str("want", here()).Int("g", g).Msg("c")
+				} else {
+					base.Info().Caller().Str("want", here()).Int("g", g).Msg("b")
+					ctxl.Info().Str("want", here()).Int("g", g).Msg("d")
+				}
+			}
+		}(g)
+	}
+	wg.Wait()
+	if len(s.lines) != G*K*2 {
+		bad = append(bad, fmt.Sprintf("caller phase: %d writes for %d events", len(s.lines), G*K*2))
+	}
+	n := 0
+	for _, ln := range s.lines {
+		var m map[string]interface{}
+		if json.Unmarshal(bytes.TrimSpace([]byte(ln)), &m) != nil {
+			bad = append(bad, "caller phase: invalid line")
+			continue
+		}
+		if m["caller"] != m["want"] {
+			n++
+			if n <= 3 {
+				bad = append(bad, fmt.Sprintf("caller phase: event %v logged at %v reports caller %v", m["message"], m["want"], m["caller"]))
+			}
+		}
+	}
+	return bad
+}
+
 func main() {
 	bad := []string{}
 	rounds := 12
@@ -184,6 +235,8 @@ func main() {
 							e = e.Dict("d", zerolog.Dict().Int("x", g*1000+k))
 						case 2:
 							e = e.Array("a", zerolog.Arr().Int(g).Int(k))
+							// a value that goes through InterfaceMarshalFunc (encoding/json): a different size per goroutine
+							e = e.Interface("iv", map[string]interface{}{"g": g, "pad": strings.Repeat(string(rune('a'+g)), 150+g*400)})
 						case 3:
 							e = e.Str("pad", pad)
 						case 4:
@@ -219,6 +272,12 @@ func main() {
 				if a, ok := m["ua"].([]interface{}); ok && (int(a[0].(float64)) != g || int(a[1].(float64)) != k) {
 					bad = append(bad, fmt.Sprintf("event %d/%d carries another event's marshaled array", g, k))
 				}
+				if iv, ok := m["iv"].(map[string]interface{}); ok {
+					pad, _ := iv["pad"].(string)
+					if ig, _ := iv["g"].(float64); int(ig) != g || pad != strings.Repeat(string(rune('a'+g)), 150+g*400) {
+						bad = append(bad, fmt.Sprintf("event %d/%d carries another event's marshaled value", g, k))
+					}
+				}
 				if c, ok := m["child"]; ok && int(c.(float64)) != g {
 					bad = append(bad, fmt.Sprintf("event %d/%d carries child=%v", g, k, c))
 				}
@@ -240,6 +299,7 @@ func main() {
 		}
 	}
 	bad = append(bad, gatePhase()...)
+	bad = append(bad, callerPhase()...)
 	bad = append(bad, consolePhase()...)
 	if len(bad) > 10 {
 		bad = bad[:10]
